@@ -117,6 +117,8 @@ class MemoryAccess:
                                     priority, pgn, sa, timestamp, data
                                 )
                                 self.server.set_busy(False)
+                                # the transaction is over, be ready for the next request
+                                self.server.reset_query()
                                 self.state = DMState.IDLE
                                 self.server.error = 0x0
 
